@@ -206,3 +206,45 @@ def alpha_src(f):
         if isinstance(n, ast.Name) and n.id in order:
             n.id = order[n.id]
     return ast.unparse(tree).replace(" ", "")
+
+
+def path_deref(p, expr, upto=None, depth=3):
+    """A returned / tested local resolved on the path: `x = e; return x` is `return e`.  Looks backwards
+    from the end of the path (or from event index `upto`) for the last plain assignment to the name."""
+    evs = p.events if upto is None else p.events[:upto]
+    while depth > 0 and isinstance(expr, ast.Name):
+        found = None
+        for i in range(len(evs) - 1, -1, -1):
+            ev = evs[i]
+            if ev.k == "stmt" and isinstance(ev.node, ast.Assign) and len(ev.node.targets) == 1 \
+                    and isinstance(ev.node.targets[0], ast.Name) and ev.node.targets[0].id == expr.id:
+                found = (i, ev.node.value)
+                break
+            if ev.k == "stmt" and isinstance(ev.node, (ast.AugAssign, ast.AnnAssign)) and isinstance(ev.node.target, ast.Name) and ev.node.target.id == expr.id:
+                return expr
+            if ev.k == "bind":
+                names = [n.id for n in ast.walk(ev.node) if isinstance(n, ast.Name)] if isinstance(ev.node, ast.AST) and not isinstance(ev.node, ast.ExceptHandler) else []
+                if expr.id in names:
+                    return expr
+        if found is None:
+            return expr
+        evs = evs[:found[0]]
+        expr = found[1]
+        depth -= 1
+    return expr
+
+
+def ret_deref(f, ret):
+    """Static variant for `tmp = e` immediately followed by `return tmp` in the same block -> e."""
+    v = ret.value
+    if not isinstance(v, ast.Name):
+        return v
+    for n in ast.walk(f.node):
+        for fld in ("body", "orelse", "finalbody"):
+            blk = getattr(n, fld, None)
+            if isinstance(blk, list) and ret in blk:
+                i = blk.index(ret)
+                if i > 0 and isinstance(blk[i - 1], ast.Assign) and len(blk[i - 1].targets) == 1 and isinstance(blk[i - 1].targets[0], ast.Name) \
+                        and blk[i - 1].targets[0].id == v.id:
+                    return blk[i - 1].value
+    return v
